@@ -216,3 +216,30 @@ def shuffled(d: dict, rng: random.Random) -> dict:
     ks = list(d)
     rng.shuffle(ks)
     return {k: d[k] for k in ks}
+
+
+def many_files(text: str, rng: random.Random, kind: str, at_least: int = 24, big: bool = True) -> dict:
+    """One definition per file (nested directories, awkward names), padded with unused definitions to at least
+    `at_least` files, plus one file that takes noticeably longer to read and parse: a project laid out the way
+    large schemas are, beyond any threshold at which a loader might start reading files concurrently."""
+    defs = [print_ast(d) for d in parse(text).definitions]
+    out = {}
+    dirs = ["", "a/", "b/", "a/deep/", "Z/", "_x/"]
+    for i, d in enumerate(defs):
+        out[f"{rng.choice(dirs)}{i:02d}_{rng.choice(['def', 'Part', 'x-y', 'item'])}.{rng.choice(['graphql', 'gql', 'graphqls'])}"] = d + "\n"
+    i = len(defs)
+    while len(out) < at_least:
+        if kind == "schema":
+            out[f"{rng.choice(dirs)}{i:02d}_filler.graphql"] = f"enum FillerEnum{i} {{ A{i} B{i} }}\n"
+        else:
+            out[f"{rng.choice(dirs)}{i:02d}_filler.graphql"] = f"fragment FillerFrag{i} on Query {{ __typename }}\n"
+        i += 1
+    if big:
+        if kind == "schema":
+            out["a/99_big.graphql"] = "\n".join(
+                f'"""{"long description " * 40}"""\nenum BigEnum{k} {{ ' + " ".join(f"V{k}_{j}" for j in range(8)) + " }" for k in range(6)) + "\n"
+        else:
+            out["a/99_big.graphql"] = "\n".join(
+                f"fragment BigFrag{k} on Query {{ " + " ".join(f"a{j}: __typename" for j in range(20)) + " }" for k in range(6)) + "\n"
+    out["notes.txt"] = "not graphql\n"
+    return out
